@@ -31,6 +31,8 @@ pub enum RSpec {
     OkNoParams,
     /// a final reply without `error` whose parameters do not fit a typed reply struct: {"token": 5}
     OkIllTyped,
+    /// a result with a 9000-byte member: larger than the client's read buffer
+    OkBig,
     /// name: 0 InterfaceNotFound, 1 MethodNotFound, 2 MethodNotImplemented, 3 InvalidParameter,
     /// 4 custom error; params: 0 proper, 1 member absent, 2 ill-typed, 3 other members only
     Err { name: u8, params: u8 },
@@ -39,6 +41,8 @@ pub enum RSpec {
 #[derive(Clone, Debug, Serialize, Deserialize, PartialEq)]
 pub enum KOp {
     Call(RSpec),
+    /// oneway(), then call() on the *same* call object (must be refused: the object was sent)
+    OnewayResend,
     /// call() whose reply type is a struct with a required string member `token` (not a bare Value)
     CallTyped(RSpec),
     Oneway,
@@ -96,6 +100,7 @@ fn final_frame(spec: &RSpec, token: &str) -> Value {
         RSpec::Ok => json!({"parameters": {"token": token}}),
         RSpec::OkNoParams => json!({}),
         RSpec::OkIllTyped => json!({"parameters": {"token": 5}}),
+        RSpec::OkBig => json!({"parameters": {"token": token, "pad": "B".repeat(9000)}}),
         RSpec::Err { name, params } => {
             let n = if (*name as usize) < 4 { STD_ERR[*name as usize].0 } else { CUSTOM_ERR };
             let mut m = serde_json::Map::new();
@@ -114,6 +119,7 @@ fn expected_outcome(spec: &RSpec, token: &str) -> String {
         RSpec::Ok => format!("Ok:{}", json!({ "token": token })),
         RSpec::OkNoParams => "Ok:{}".to_string(),
         RSpec::OkIllTyped => format!("Ok:{}", json!({"token": 5})),
+        RSpec::OkBig => format!("Ok:{}", json!({"token": token, "pad": "B".repeat(9000)})),
         RSpec::Err { name, params } => {
             if (*name as usize) < 4 {
                 let kind = ["InterfaceNotFound", "MethodNotFound", "MethodNotImplemented", "InvalidParameter"][*name as usize];
@@ -168,7 +174,7 @@ pub struct TypedReply {
 /// what a typed call must hand back
 fn expected_typed(spec: &RSpec, token: &str) -> String {
     match spec {
-        RSpec::Ok => format!("Ok:typed:{}", token),
+        RSpec::Ok | RSpec::OkBig => format!("Ok:typed:{}", token),
         // the reply is final and carries no error, but does not decode: an error for this call,
         // and the connection is free again
         RSpec::OkNoParams | RSpec::OkIllTyped => "E:Serde".to_string(),
@@ -252,7 +258,7 @@ fn run_task(net: NetRef, conn: Arc<shuttle::sync::RwLock<Connection>>, task: usi
                 };
                 rec(OpRec { task, op: oi, what: "call", item: 0, token: token.clone(), inv, ret, outcome });
             }
-            KOp::Oneway => {
+            KOp::Oneway | KOp::OnewayResend => {
                 let mut mc = new_call(&token, json!({"final": spec_json(&RSpec::Ok)}));
                 let inv = net.stamp(format!("inv {} oneway", token));
                 let r = mc.oneway();
@@ -262,6 +268,16 @@ fn run_task(net: NetRef, conn: Arc<shuttle::sync::RwLock<Connection>>, task: usi
                     Err(e) => err_outcome(e),
                 };
                 rec(OpRec { task, op: oi, what: "oneway", item: 0, token: token.clone(), inv, ret, outcome });
+                if matches!(op, KOp::OnewayResend) {
+                    let inv = net.stamp(format!("inv {} resend", token));
+                    let r = if oi % 2 == 0 { mc.call().map(|_| ()) } else { mc.oneway() };
+                    let ret = net.stamp(format!("ret {} resend", token));
+                    let outcome = match &r {
+                        Ok(()) => "Ok".to_string(),
+                        Err(e) => err_outcome(e),
+                    };
+                    rec(OpRec { task, op: oi, what: "resend", item: 0, token: token.clone(), inv, ret, outcome });
+                }
             }
             KOp::More { .. } | KOp::MoreErr { .. } | KOp::MoreResend { .. } => {
                 let resend_nexts: u8;
@@ -403,6 +419,17 @@ pub fn run_k(case: &KCase) -> (SimEnd, crate::sched::SimStats, KObs) {
                             sv.push(viol("C07", "request-sent-twice", format!("request {} arrived twice", tok)));
                         }
                         arrivals.push(Arrival { token: tok.clone(), more, oneway, seq });
+                        if oneway {
+                            if let Some(o) = &outstanding {
+                                // it was written after `o` (one pipe, in order) and before o's final
+                                // reply was even released: the connection was busy, nothing may be written
+                                sv.push(viol(
+                                    "C07",
+                                    "oneway-written-while-busy",
+                                    format!("oneway request {} arrived while {} had not been given its final reply", tok, o),
+                                ));
+                            }
+                        }
                         if !oneway {
                             if let Some(o) = &outstanding {
                                 sv.push(viol(
@@ -643,7 +670,21 @@ pub fn judge_k(case: &KCase, end: &SimEnd, o: &KObs) -> (Vec<Violation>, bool) {
                         ));
                     }
                 }
-                KOp::Oneway => {
+                KOp::Oneway | KOp::OnewayResend => {
+                    if let KOp::OnewayResend = op {
+                        if let Some(r2) = mine.iter().find(|r| r.what == "resend") {
+                            if r2.outcome != "E:CalledAlready" && !faulty {
+                                v.push(viol(
+                                    "C07",
+                                    "second-send",
+                                    format!("{}: a second send on a call object that was already sent with oneway() returned {} instead of MethodCalledAlready", token, r2.outcome),
+                                ));
+                            }
+                        }
+                        if o.arrivals.iter().filter(|a| a.token == token).count() > 1 {
+                            v.push(viol("C07", "second-send", format!("{}: the request was written twice", token)));
+                        }
+                    }
                     if main.outcome != "Ok" && !(faulty && conn_level(&main.outcome)) {
                         v.push(viol("C04", "client-oneway", format!("{} oneway() returned {}", token, main.outcome)));
                     }
@@ -911,7 +952,7 @@ pub const STUB_K: [&str; 3] = [
 ];
 
 fn all_specs() -> Vec<RSpec> {
-    let mut v = vec![RSpec::Ok, RSpec::OkNoParams, RSpec::OkIllTyped];
+    let mut v = vec![RSpec::Ok, RSpec::OkNoParams, RSpec::OkIllTyped, RSpec::OkBig];
     for name in 0..5u8 {
         for params in 0..4u8 {
             v.push(RSpec::Err { name, params });
@@ -927,6 +968,7 @@ fn op_alphabet() -> Vec<KOp> {
         KOp::Call(RSpec::Err { name: 4, params: 0 }),
         KOp::CallTyped(RSpec::OkIllTyped),
         KOp::Oneway,
+        KOp::OnewayResend,
         KOp::Resend(RSpec::Ok),
         KOp::More { conts: 0, fin: RSpec::Ok, nexts: 2, nested: false },
         KOp::More { conts: 2, fin: RSpec::Ok, nexts: 4, nested: false },
@@ -941,7 +983,8 @@ fn random_op(rng: &mut Rng, specs: &[RSpec], allow_abandon: bool) -> KOp {
     match rng.below(10) {
         0..=2 => KOp::Call(rng.pick(specs).clone()),
         3 => KOp::CallTyped(rng.pick(specs).clone()),
-        4 | 5 => KOp::Oneway,
+        4 => KOp::Oneway,
+        5 => if rng.chance(1, 3) { KOp::OnewayResend } else { KOp::Oneway },
         6 => KOp::Resend(rng.pick(specs).clone()),
         7 if rng.chance(1, 2) => KOp::MoreResend { conts: rng.range(1, 5) as u8, fin: rng.pick(specs).clone() },
         7 => {
@@ -1067,6 +1110,24 @@ pub fn c07_plan(tier: Tier) -> Plan {
             }),
         });
     }
+    // long histories on one connection: 60..250 operations from one or two threads
+    {
+        let n = if tier == Tier::Quick { 300 } else { 10_000 };
+        let specs = all_specs();
+        spaces.push(Space {
+            name: "K.seq.long",
+            size: n,
+            exhaustive: false,
+            gen: Box::new(move |_idx, seed| {
+                let mut rng = Rng::new(seed);
+                let nt = rng.range(1, 2) as usize;
+                let tasks: Vec<Vec<KOp>> = (0..nt).map(|_| (0..rng.range(60, 250)).map(|_| random_op(&mut rng, &specs, false)).collect()).collect();
+                let mut c = base_case(tasks, SchedCfg::random(&mut rng, 1));
+                io_plans(&mut rng, &mut c, false);
+                Case::K(c)
+            }),
+        });
+    }
     // fault-injecting configuration: EINTR on client reads, server closing in mid-stream
     {
         let n = if tier == Tier::Quick { 12_000 } else { 400_000 };
@@ -1103,7 +1164,7 @@ pub fn c07_plan(tier: Tier) -> Plan {
     }
     Plan {
         spaces,
-        rule: "K1: the real client against a scripted server on a simulated socket pair. (a) every reply object (with/without error; the four standard error names and a custom one, each with proper / absent / ill-typed / foreign parameters) plus results without parameters and with ill-typed parameters — through call() with a Value reply type, through call() with a typed reply struct, and as the final reply of a more() iteration; (b) one thread, every operation sequence over an 11-operation alphabet {call ok/std error/custom error, a call with a typed reply struct answered with parameters that do not decode, oneway, second send on the same object, more with 0..2 continues replies ending in a result or an error, an error item carrying continues:true in mid-stream, a second send on a call object that is still iterating, new call while iterating} up to length 3 (quick) / 4 (thorough), complete; (c) 2..8 threads sharing one Arc<RwLock<Connection>>, 1..6 random operations each, under seeded schedules, with client short reads / short writes, replies released in random chunks, sometimes before quiescence; (d) the same with EINTR on client reads, a receive timeout (transient EAGAIN) firing while a reply is awaited, and the server closing in mid-stream (outcomes relaxed to: expected result or a connection-level error, never wrong data). Oracles: bytes at the server are whole requests, at most one non-oneway request in flight, a refused call leaves no bytes, every result carries its own token and the mapped error kind, ConnectionBusy only when another call's ownership interval (event sequence numbers) overlaps the attempt, second send = MethodCalledAlready, no hang. Distinct = (case, hash of the context-switch sequence).".into(),
+        rule: "K1: the real client against a scripted server on a simulated socket pair. (a) every reply object (with/without error; the four standard error names and a custom one, each with proper / absent / ill-typed / foreign parameters) plus results without parameters and with ill-typed parameters — through call() with a Value reply type, through call() with a typed reply struct, and as the final reply of a more() iteration; (b) one thread, every operation sequence over an 11-operation alphabet {call ok/std error/custom error, a call with a typed reply struct answered with parameters that do not decode, oneway, second send on the same object, more with 0..2 continues replies ending in a result or an error, an error item carrying continues:true in mid-stream, a second send on a call object that is still iterating, a second send after oneway(), new call while iterating} up to length 3 (quick) / 4 (thorough), complete; (c) 2..8 threads sharing one Arc<RwLock<Connection>>, 1..6 random operations each, under seeded schedules, with client short reads / short writes, replies released in random chunks, sometimes before quiescence; (d) the same with EINTR on client reads, a receive timeout (transient EAGAIN) firing while a reply is awaited, and the server closing in mid-stream (outcomes relaxed to: expected result or a connection-level error, never wrong data). Oracles: bytes at the server are whole requests, at most one non-oneway request in flight, a refused call leaves no bytes, every result carries its own token and the mapped error kind, ConnectionBusy only when another call's ownership interval (event sequence numbers) overlaps the attempt, second send = MethodCalledAlready, no hang. Distinct = (case, hash of the context-switch sequence).".into(),
         level: "exploration",
         real: REAL_K.to_vec(),
         stub: STUB_K.to_vec(),
